@@ -2628,6 +2628,11 @@ func (self *LockDB) wakeUpWaitLocks(lockManager *LockManager, serverProtocol Ser
 		lockManager.glock.Lock()
 		waitLock := lockManager.GetWaitLock()
 		for waitLock != nil {
+			if lockManager.locked == 0 && waitLock.command.TimeoutFlag&protocol.TIMEOUT_FLAG_LOCK_WAIT_WHEN_UNLOCK != 0 {
+				// a request that waits for the key to become locked is not served while the key is unlocked
+				lockManager.glock.Unlock()
+				return
+			}
 			if !self.doLock(lockManager, waitLock) {
 				lockManager.glock.Unlock()
 				return
